@@ -19,7 +19,7 @@ def run(ctx):
     saved_context_is_a_copy(ctx, "C06")
     detector_walk_every_tick(ctx, "C06")
     # locals / parameters the rules below refer to by name (a rename makes the analysis 'broken', never a violation)
-    ctx.anchor(ctx.fn1('Oomd::Engine::Ruleset::runOnceImpl'), 'target', 'it', 'context')
+    ctx.anchor(ctx.fn1('Oomd::Engine::Ruleset::runOnceImpl'), 'context')
     ctx.anchor(ctx.fn1('Oomd::Engine::Ruleset::run_action_chain'), 'action', 'context')
     P = ctx.prog
     chain = ctx.fn1("Oomd::Engine::Ruleset::run_action_chain")
